@@ -243,7 +243,10 @@ func janitorMode(a map[string]string) {
 			}
 			c.Set("forever", 1, cache.NoExpiration)
 			// no user call touches the keys from here on; Count does not
-			deadline := time.Now().Add(400 * time.Millisecond)
+			deadline := time.Now().Add(5 * time.Second) // generous: the machine may be loaded
+			if iv <= 0 {
+				deadline = time.Now().Add(150 * time.Millisecond) // nothing is expected to happen: a short observation window
+			}
 			cleaned := false
 			for time.Now().Before(deadline) {
 				if c.Count() == 1 {
@@ -253,9 +256,12 @@ func janitorMode(a map[string]string) {
 				time.Sleep(2 * time.Millisecond)
 			}
 			if iv > 0 {
+				for w := 0; w < 200 && atomic.LoadInt64(firedPtr) != 10; w++ {
+					time.Sleep(5 * time.Millisecond) // the callbacks are fired after the removals of a pass
+				}
 				if !cleaned || atomic.LoadInt64(firedPtr) != 10 {
 					bad++
-					fmt.Printf("BAD-janitor-clean %s interval=%d: count=%d callbacks=%d after 400ms (scaled intervals)\n", ct.name, iv, c.Count(), atomic.LoadInt64(firedPtr))
+					fmt.Printf("BAD-janitor-clean %s interval=%d: count=%d callbacks=%d after 5s (scaled intervals)\n", ct.name, iv, c.Count(), atomic.LoadInt64(firedPtr))
 				}
 			} else {
 				time.Sleep(30 * time.Millisecond)
@@ -295,6 +301,11 @@ func janitorMode(a map[string]string) {
 			runtime.GC()
 			time.Sleep(15 * time.Millisecond)
 		}
+	}
+	// finalizers run on their own goroutine: give them time (up to 10 s) before calling it a leak
+	for w := 0; w < 200 && runtime.NumGoroutine() > base; w++ {
+		runtime.GC()
+		time.Sleep(50 * time.Millisecond)
 	}
 	n := runtime.NumGoroutine()
 	if n > base {
